@@ -6,7 +6,7 @@ From Coq Require Import Sorted.
 From BV Require Import Base.Prelude Model.Block Model.ForkDB Model.Forkable Model.ForkableLookups Model.Burst Model.Hub
   Model.CursorResolver Model.Joining
   Spec.Consumer Spec.Universe Check.Fk_Check Check.Burst_Check Check.C07_Check
-  Spec.C09_Spec Spec.C05_Spec Spec.C06_Spec Spec.C07_Spec Spec.C13_Spec Spec.C07_Compose_Spec Spec.C07_Shapes_Spec Spec.C07_More_Spec
+  Spec.C09_Spec Spec.C05_Spec Spec.C06_Spec Spec.C07_Spec Spec.C13_Spec Spec.C07_Compose_Spec Spec.C07_Shapes_Spec Spec.C07_More_Spec Spec.C13_More_Spec
   Spec.C01_Spec Spec.C01_Moving_Spec Spec.C01_Roots_Spec
   Proofs.C06_Lists Proofs.C06_Proofs Proofs.C06_Forked Proofs.C06_Consumer Proofs.C13_Proofs
   Proofs.Fk.LoopFacts Proofs.Fk.MovingLibDisc Proofs.C02_Proofs Proofs.C01_Roots_Proofs
@@ -14,7 +14,7 @@ From BV Require Import Base.Prelude Model.Block Model.ForkDB Model.Forkable Mode
   Proofs.C07_File Proofs.C07_Live
   Proofs.C07_ComposeStack Proofs.C07_ComposeHub Proofs.C07_ComposeRun Proofs.C07_Compose
   Proofs.C07_ComposeCursor Proofs.C07_ComposeCursorLive Proofs.C07_ComposeCursorAll
-  Proofs.C07_Raw Proofs.C07_Shapes Proofs.C07_Filters Proofs.C07_ChainFacts.
+  Proofs.C07_Raw Proofs.C07_Shapes Proofs.C07_Filters Proofs.C07_ChainFacts Proofs.C07_Disc Proofs.C07_FiltersNum.
 Local Open Scope N_scope.
 
 Lemma filter_filter {A} (p q : A -> bool) : forall l, filter p (filter q l) = filter (fun x => q x && p x) l.
@@ -114,6 +114,57 @@ Section CurRun.
   Lemma Hne1 : j_filter c <> 1.
   Proof. exact (has_nu_not_final c Hnu). Qed.
 
+  (* the start point of the consumer: the first canonical block above L (one above L when there is none) *)
+  Definition start' : N := match rest with r1 :: _ => bnum r1 | [] => bnum L + 1 end.
+
+  Lemma HLs' : bnum L < start'.
+  Proof.
+    unfold start'. pose proof (asc_filter (fun b => lib <=? bnum b) canon Hasc) as Ha. fold (from_num lib canon) in Ha. rewrite Hfrom in Ha.
+    clear - Ha. destruct rest as [|r1 rest1]; [lia|]. destruct Ha as [Hall _]. exact (Forall_inv Hall).
+  Qed.
+
+  Lemma start_eq : rest <> [] -> start' = start.
+  Proof. unfold start', start. clear. destruct rest; [intros H; contradiction | reflexivity]. Qed.
+
+  Lemma Hstartle' : exists b, In b canon /\ bnum b <= start'.
+  Proof. exists L. split; [exact HLc | pose proof HLs'; lia]. Qed.
+
+  (* the consumer at the cursor, its canonical part: good stacks *)
+  Lemma J0_good : Good U start' J0.
+  Proof.
+    destruct Hstate as (Hbr & Hon & _).
+    assert (HLU : In L U) by (apply Hincl; exact HLc).
+    assert (HKU : Forall (fun x => In x U) (hc ++ hf)).
+    { apply Forall_app. split; [|exact HhfU]. eapply Forall_impl; [|exact Hon]. cbn beta. intros x Hx. apply Hincl. exact Hx. }
+    destruct (list_eq_nil_or_cons (hc ++ hf)) as [E|(k0 & K0 & E)]; [left; unfold J0; rewrite E; reflexivity|]. right.
+    exists (J0 ++ [L]). split; [unfold J0; destruct (rev (hc ++ hf)); discriminate|]. split.
+    - split.
+      + apply Forall_app. split; [|constructor; [exact HLU | constructor]].
+        apply Forall_forall. intros y Hy. unfold J0 in Hy. apply in_rev in Hy. rewrite Forall_forall in HKU. exact (HKU y Hy).
+      + exists (bparent L). unfold J0. rewrite rev_app_distr, rev_involutive. cbn [rev app lnk]. split; [reflexivity | apply branch_lnk; exact Hbr].
+    - right. exists [L]. split; [reflexivity|]. split; [discriminate | constructor; [exact HLs' | constructor]].
+  Qed.
+
+  Lemma hc_good : Good U start' (rev hc).
+  Proof. apply (good_lower U start' (rev hf) (rev hc)). rewrite <- rev_app_distr. exact J0_good. Qed.
+
+  (* what the consumer holds is numbered at or below the cursor block *)
+  Lemma held_le : forall x, In x (hc ++ hf) -> bnum x <= rn (cu_blk cu).
+  Proof.
+    destruct Hstate as (Hbr & Hon & Hoff & Hnu' & Hu & Hfiles).
+    assert (Hle : forall top, branch_from L ((hc ++ hf) ++ top) -> bnum (last ((hc ++ hf) ++ top) L) = rn (cu_blk cu) ->
+                  forall x, In x (hc ++ hf) -> bnum x <= rn (cu_blk cu)).
+    { intros top Hb Hlast x Hx. pose proof (branch_asc _ _ Hb) as Ha. pose proof (asc_last_max _ _ Ha) as Hmax.
+      rewrite Forall_forall in Hmax. rewrite <- Hlast. apply Hmax. right. apply in_or_app. left. exact Hx. }
+    destruct (step_eqb (cu_step cu) SUndo) eqn:Es.
+    - assert (Est : cu_step cu = SUndo) by (destruct (cu_step cu); try discriminate; reflexivity).
+      destruct (Hu Est) as (X & HX & HbrX & _). destruct (bref_eq _ _ HX) as [_ EX].
+      apply (Hle [X]); [rewrite <- app_assoc; exact HbrX|]. rewrite last_app_one. exact EX.
+    - assert (Est : cu_step cu <> SUndo) by (intros E; rewrite E in Es; discriminate).
+      destruct (bref_eq _ _ (Hnu' Est)) as [_ EX].
+      apply (Hle []); rewrite app_nil_r; [exact Hbr | exact EX].
+  Qed.
+
   (* the files read: the chain from L below mend *)
   Lemma HD : file_delivery merged lib stopf (j_bundle c) = filter (fun b => bnum b <? mend) (L :: rest).
   Proof.
@@ -156,7 +207,8 @@ Section CurRun.
   Definition und := map (C06_Spec.undo_event cu (last hc L)) (rev hf).
 
   Lemma cur_files :
-    from_cursor_run merged forked cu stopf (j_bundle c) = ([], RsOk) \/
+    (from_cursor_run merged forked cu stopf (j_bundle c) = ([], RsOk) /\
+     ~ reached (file_delivery merged lib stopf (j_bundle c)) cu) \/
     exists I later,
       from_cursor_run merged forked cu stopf (j_bundle c) = (und ++ map (file_event SIrr) I ++ map fev later, RsOk) /\
       filter (fun b => bnum b <? mend) rest = hc ++ later /\
@@ -167,10 +219,14 @@ Section CurRun.
     pose proof (merged_chain_ok canon merged_end Hchain) as Hmok. fold merged in Hmok.
     set (D := file_delivery merged lib stopf (j_bundle c)).
     destruct (bnum L <? mend) eqn:ELm.
-    2:{ left. unfold from_cursor_run. fold lib. fold D. unfold D. rewrite HD. cbn [filter]. rewrite ELm.
-      rewrite (C06_Lists.filter_none _ _ rest); [reflexivity|].
-      pose proof (asc_filter (fun b => lib <=? bnum b) canon Hasc) as Ha. fold (from_num lib canon) in Ha. rewrite Hfrom in Ha.
-      destruct Ha as [Hall _]. apply N.ltb_ge in ELm. eapply Forall_impl; [|exact Hall]. cbn beta. intros y Hy. apply N.ltb_ge. lia. }
+    2:{ left.
+      assert (ED0 : D = []).
+      { unfold D. rewrite HD. cbn [filter]. rewrite ELm.
+        rewrite (C06_Lists.filter_none _ _ rest); [reflexivity|].
+        pose proof (asc_filter (fun b => lib <=? bnum b) canon Hasc) as Ha. fold (from_num lib canon) in Ha. rewrite Hfrom in Ha.
+        destruct Ha as [Hall _]. apply N.ltb_ge in ELm. eapply Forall_impl; [|exact Hall]. cbn beta. intros y Hy. apply N.ltb_ge. lia. }
+      split; [unfold from_cursor_run; fold lib; fold D; rewrite ED0; reflexivity|].
+      fold D. rewrite ED0. intros (b & [] & _). }
     set (rest' := filter (fun b => bnum b <? mend) rest).
     assert (HD' : D = L :: rest') by (unfold D; rewrite HD; cbn [filter]; rewrite ELm; reflexivity).
     assert (Hset : setting merged cu stopf (j_bundle c) L rest').
@@ -182,10 +238,12 @@ Section CurRun.
     { intros x Hx H1 H2. rewrite <- HD'. unfold D. rewrite HD. apply filter_In. split; [|apply N.ltb_lt; exact H2].
       rewrite <- Hfrom. unfold from_num. apply filter_In. split; [exact Hx | apply N.leb_le; exact H1]. }
     destruct (existsb (fun b => rn (cu_blk cu) <=? bnum b) (L :: rest')) eqn:Ereach.
-    2:{ left. apply (c06_not_reached_proof merged forked cu stopf (j_bundle c) L rest' Hset).
-      intros (b & Hb & Hge). assert (H : existsb (fun b => rn (cu_blk cu) <=? bnum b) (L :: rest') = true).
-      { apply existsb_exists. exists b. split; [exact Hb | apply N.leb_le; exact Hge]. }
-      rewrite H in Ereach. discriminate. }
+    2:{ left.
+      assert (Hnr : ~ reached (L :: rest') cu).
+      { intros (b & Hb & Hge). assert (H : existsb (fun b => rn (cu_blk cu) <=? bnum b) (L :: rest') = true).
+        { apply existsb_exists. exists b. split; [exact Hb | apply N.leb_le; exact Hge]. }
+        rewrite H in Ereach. discriminate. }
+      split; [exact (c06_not_reached_proof merged forked cu stopf (j_bundle c) L rest' Hset Hnr) | fold D; rewrite HD'; exact Hnr]. }
     right. apply existsb_exists in Ereach as (br & Hbr_in & Hbr_ge). apply N.leb_le in Hbr_ge.
     assert (Hreach : reached (L :: rest') cu) by (exists br; auto).
     destruct (HDc br Hbr_in) as [_ Hbr_lt].
@@ -247,6 +305,14 @@ Section CurRun.
     apply Forall_app. split; apply Forall_forall; intros e He; apply in_map_iff in He as (x & <- & _); reflexivity.
   Qed.
 
+  Lemma pre0_disc I : disc U start' J0 (und ++ map (file_event SIrr) I).
+  Proof.
+    apply (disc_undo_push U start' J0 und (map (file_event SIrr) I) (rev hc) J0_good hc_good).
+    - apply Forall_forall. intros e He. apply in_map_iff in He as (x & <- & _). reflexivity.
+    - apply Forall_forall. intros e He. apply in_map_iff in He as (x & <- & _). reflexivity.
+    - exact (und_irr_fold I).
+  Qed.
+
   (* ---------------------------------------------------------------- the raw sequence of the run *)
 
   (* the four outcomes of a stream that ends waiting, for the stack J of the consumer *)
@@ -256,10 +322,13 @@ Section CurRun.
     above lib (rev J) = rest.
 
   Lemma cur_core :
-    exists X J, sfold J0 X = Some J /\
-      ((exists P, raw_out c X res P /\ (P -> cur_done J)) \/
-       (exists fend, files_out c X fend res /\ (fend = JNil -> X = [] \/ cur_done J)) \/
-       (X = [] /\ fst res = [] /\ snd res <> JNil)).
+    exists X J, sfold J0 X = Some J /\ disc U start' J0 X /\
+      ((run_rejected c w = false /\ exists P, raw_out c X res P /\ (P -> cur_done J)) \/
+       (run_rejected c w = false /\ files_out c X fend0 res /\ (fend0 = JNil -> X = [] \/ cur_done J) /\
+        ((X = [] /\ ~ reached (file_delivery merged lib stopf (j_bundle c)) cu) \/
+         exists I later, X = (und ++ map (file_event SIrr) I) ++ map fev later /\
+                         filter (fun b => bnum b <? mend) rest = hc ++ later)) \/
+       (X = [] /\ fst res = [] /\ snd res <> JNil /\ snd res <> JStop)).
   Proof.
     pose proof (c07_run_shapes_proof c w ps merged_end merged forked) as Hsh. cbv zeta in Hsh.
     rewrite run_files_cur in Hsh. cbn [fst snd] in Hsh. fold res in Hsh.
@@ -267,7 +336,7 @@ Section CurRun.
     pose proof Hstartblk as Hsb.
     assert (Hmode2 : (j_mode c =? 2) = false) by (rewrite Hmode; reflexivity).
     destruct Hsh as [[_ Hr]|[Hrej [(burst & k & Hlt & Hro)|[[_ Hr]|[Hlt [(pre & e & rest0 & m & lowest & burst & k & Ef & Hns & Hj & Hro)|Hfo]]]]]].
-    - exists [], J0. split; [reflexivity|]. right. right. rewrite Hr. split; [reflexivity|]. split; [reflexivity | discriminate].
+    - exists [], J0. split; [reflexivity|]. split; [apply disc_nil; exact J0_good|]. right. right. rewrite Hr. split; [reflexivity|]. split; [reflexivity|]. split; discriminate.
     - (* the hub serves the cursor *)
       rewrite Hseen in Hro.
       unfold live_try in Hlt. rewrite Hmode, Hcur in Hlt. cbn [N.eqb Pos.eqb] in Hlt.
@@ -304,14 +373,23 @@ Section CurRun.
       assert (Hstartle1 : exists b, In b canon /\ bnum b <= start1) by (exists L; split; [exact HLc | unfold start1; lia]).
       destruct (cursor_live_raw U c canon start1 U_id U_uniq U_up D_decl HcU Hcl Hstartle1 w V E (rev K) burst
                   (rev (map seg_blk hi)) k (conj Hrd (conj HV Hrest)) Htip Hfold HR) as (J & HJ & Hfin).
-      exists (burst ++ pushed c k w), J. split; [exact HJ|]. left.
+      assert (Hdisc : disc U start' J0 (burst ++ pushed c k w)).
+      { destruct (cursor_live_rel U (j_first c) (j_kept c) U_id U_uniq U_up (h_f (w_hub w)) V hd sg lo xL hi L start' HV Hls Eseg Hgood Hsplit HbL HLU Hlhi HhiU HLs')
+          as [E' HR'].
+        destruct (from_cursor_split _ cu burst Hlt) as (us & ns & Eb & Hus & Hns).
+        destruct (live_raw U c canon start' U_id U_uniq U_up D_decl HcU Hcl Hstartle' w V E' (rev (map seg_blk hi)) k (conj Hrd (conj HV Hrest)) Htip HR')
+          as (Hdl' & _).
+        apply (disc_app U start' J0 (rev (map seg_blk hi)) burst _); [|exact Hfold | exact Hdl'].
+        rewrite Eb. apply (disc_undo_push U start' J0 us ns (rev (map seg_blk hi)) J0_good); [right; exists (V ++ E'); exact HR' | exact Hus | exact Hns|].
+        rewrite <- Eb. exact Hfold. }
+      exists (burst ++ pushed c k w), J. split; [exact HJ|]. split; [exact Hdisc|]. left. split; [exact Hrej|].
       exists (w_rest (world_after c k w) = []). split; [exact Hro|]. intros HP. right. right.
       rewrite above_from_num. replace (lib + 1) with start1 by (unfold start1; rewrite ELn; reflexivity). rewrite (Hfin HP).
       unfold start1. rewrite ELn, <- above_from_num. exact (above_of_from_num canon lib L rest Hasc Hfrom ELn).
-    - exists [], J0. split; [reflexivity|]. right. right. rewrite Hr. split; [reflexivity|]. split; [reflexivity | discriminate].
+    - exists [], J0. split; [reflexivity|]. split; [apply disc_nil; exact J0_good|]. right. right. rewrite Hr. split; [reflexivity|]. split; [reflexivity|]. split; discriminate.
     - (* files, then the join *)
       rewrite !Hseen in *.
-      destruct cur_files as [Enone|(I & later & Erun & Erest' & Hlk & Hinm & Hbot)].
+      destruct cur_files as [[Enone _]|(I & later & Erun & Erest' & Hlk & Hinm & Hbot)].
       { rewrite Enone in Ef. cbn [fst] in Ef. destruct pre; discriminate. }
       rewrite Erun in Ef. cbn [fst] in Ef. rewrite app_assoc in Ef.
       destruct (join_try_some c _ lowest e burst Hj) as (Hen & _ & _).
@@ -329,8 +407,22 @@ Section CurRun.
       destruct (cursor_join_raw U c canon start U_id U_uniq U_up D_decl HcU Hcl Hsb merged HmU (world_after c m w) J0
                   (und ++ map (file_event SIrr) I) hc Dpre bn lowest burst k (und_irr_fold I)
                   (wok_after U c U_id U_uniq U_up D_decl m w HW) (tip_after c canon w m Htip) Hjg Hl1 Hin1 Hbot1 Hj) as (J & HJ & Hfin).
+      assert (Hrne : rest <> []).
+      { intros E. rewrite E in Erest'. cbn [filter] in Erest'. symmetry in Erest'. apply app_eq_nil in Erest' as [_ E2]. destruct Dpre; discriminate. }
+      assert (Hdisc : disc U start' J0 ((und ++ map (file_event SIrr) I) ++ map fev Dpre ++ burst ++ pushed c k (world_after c m w))).
+      { rewrite (start_eq Hrne).
+        destruct (join_raw U c canon start U_id U_uniq U_up D_decl HcU Hcl Hsb merged HmU (world_after c m w) (hc ++ Dpre) bn lowest burst k
+                    (wok_after U c U_id U_uniq U_up D_decl m w HW) (tip_after c canon w m Htip) Hjg Hl1 Hin1 Hbot1 Hj) as (Hdj & _).
+        rewrite map_app, <- app_assoc in Hdj.
+        destruct Hl1 as [x1 Hl1].
+        destruct (files_raw U start merged HmU hc) as (Hfh & _ & _).
+        { exists x1. rewrite <- app_assoc in Hl1. eapply linked_prefix. exact Hl1. }
+        { intros b Hb. apply Hin1. apply in_or_app. left. apply in_or_app. left. exact Hb. }
+        { intros z r Ez. apply (Hbot1 z (r ++ Dpre ++ [bn])). rewrite <- app_assoc, Ez. reflexivity. }
+        apply (disc_app U start J0 (rev hc) _ _); [rewrite <- (start_eq Hrne); exact (pre0_disc I) | exact (und_irr_fold I)|].
+        exact (disc_suffix U start [] (map fev hc) _ (rev hc) Hdj Hfh). }
       exists ((und ++ map (file_event SIrr) I) ++ map fev Dpre ++ burst ++ pushed c k (world_after c m w)), J.
-      split; [exact HJ|]. left. exists (w_rest (world_after c k (world_after c m w)) = []).
+      split; [exact HJ|]. split; [exact Hdisc|]. left. split; [exact Hrej|]. exists (w_rest (world_after c k (world_after c m w)) = []).
       split; [rewrite Epre, <- app_assoc in Hro; exact Hro|].
       intros HP. right. left.
       destruct rest as [|r1 rest1] eqn:Er.
@@ -339,13 +431,27 @@ Section CurRun.
         exact (from_num_first canon lib L r1 rest1 Hasc Hfrom).
     - (* files only *)
       rewrite Hseen in Hfo.
-      destruct cur_files as [Enone|(I & later & Erun & Erest' & Hlk & Hinm & Hbot)].
-      + rewrite Enone in Hfo. cbn [fst snd] in Hfo. exists [], J0. split; [reflexivity|]. right. left.
-        exists fend0. split; [exact Hfo | intros _; left; reflexivity].
+      destruct cur_files as [[Enone Hnr]|(I & later & Erun & Erest' & Hlk & Hinm & Hbot)].
+      + rewrite Enone in Hfo. cbn [fst snd] in Hfo. exists [], J0. split; [reflexivity|]. split; [apply disc_nil; exact J0_good|]. right. left.
+        split; [exact Hrej|]. split; [exact Hfo|]. split; [intros _; left; reflexivity|]. left. split; [reflexivity | exact Hnr].
       + rewrite Erun in Hfo. cbn [fst snd] in Hfo. rewrite app_assoc in Hfo.
         exists ((und ++ map (file_event SIrr) I) ++ map fev later), (rev (hc ++ later)).
         split; [exact (cursor_files_raw U start merged HmU J0 _ hc later (und_irr_fold I) Hlk Hinm Hbot)|].
-        right. left. exists fend0. split; [exact Hfo|]. intros Hf. right. left.
+        split.
+        { destruct (list_eq_nil_or_cons later) as [El|(l0 & lr & El)].
+          - rewrite El. cbn [map]. rewrite app_nil_r. exact (pre0_disc I).
+          - assert (Hrne : rest <> []).
+            { intros E. rewrite E in Erest'. cbn [filter] in Erest'. symmetry in Erest'. apply app_eq_nil in Erest' as [_ E2]. rewrite El in E2. discriminate. }
+            rewrite (start_eq Hrne).
+            destruct (files_raw U start merged HmU (hc ++ later) Hlk Hinm Hbot) as (_ & Hdall & _). rewrite map_app in Hdall.
+            destruct Hlk as [x1 Hlk].
+            destruct (files_raw U start merged HmU hc) as (Hfh & _ & _).
+            { exists x1. eapply linked_prefix. exact Hlk. }
+            { intros b Hb. apply Hinm. apply in_or_app. left. exact Hb. }
+            { intros z r Ez. apply (Hbot z (r ++ later)). rewrite Ez. reflexivity. }
+            apply (disc_app U start J0 (rev hc) _ _); [rewrite <- (start_eq Hrne); exact (pre0_disc I) | exact (und_irr_fold I)|].
+            exact (disc_suffix U start [] (map fev hc) _ (rev hc) Hdall Hfh). }
+        right. left. split; [exact Hrej|]. split; [exact Hfo|]. split; [|right; exists I, later; split; [reflexivity | exact Erest']]. intros Hf. right. left.
         rewrite rev_involutive, <- Erest'. rewrite <- (above_of_from_num canon lib L rest Hasc Hfrom ELn).
         unfold above, merged. rewrite !filter_filter. apply filter_ext_in. intros b Hb.
         rewrite (mend_all Hf b Hb). apply andb_comm.
@@ -353,27 +459,120 @@ Section CurRun.
 
   (* ---------------------------------------------------------------- the theorem *)
 
+  Lemma lib_le_blk : lib <= rn (cu_blk cu).
+  Proof.
+    destruct Hstate as (Hbr & _ & _ & Hnu' & Hu & _).
+    assert (Hle : forall top, branch_from L ((hc ++ hf) ++ top) -> bnum (last ((hc ++ hf) ++ top) L) = rn (cu_blk cu) -> lib <= rn (cu_blk cu)).
+    { intros top Hb Hlast. pose proof (branch_asc _ _ Hb) as Ha. pose proof (asc_last_max _ _ Ha) as Hmax.
+      rewrite <- Hlast, <- ELn. exact (Forall_inv Hmax). }
+    destruct (step_eqb (cu_step cu) SUndo) eqn:Es.
+    - assert (Est : cu_step cu = SUndo) by (destruct (cu_step cu); try discriminate; reflexivity).
+      destruct (Hu Est) as (X & HX & HbrX & _). destruct (bref_eq _ _ HX) as [_ EX].
+      apply (Hle [X]); [rewrite <- app_assoc; exact HbrX|]. rewrite last_app_one. exact EX.
+    - assert (Est : cu_step cu <> SUndo) by (intros E; rewrite E in Es; discriminate).
+      destruct (bref_eq _ _ (Hnu' Est)) as [_ EX].
+      apply (Hle []); rewrite app_nil_r; [exact Hbr | exact EX].
+  Qed.
+
   Lemma cur_nu :
     exists c', cons_fold_aside (mkCons J0 0 false) (map as_new (filter is_nu (fst res))) = Some c' /\
       (snd res = JNil ->
          fst res = [] \/
          rev (cs_stack c') = above lib merged \/
          (exists r1 rest1, rest = r1 :: rest1 /\ from_num (bnum r1) (rev (cs_stack c')) = rest) \/
-         above lib (rev (cs_stack c')) = rest).
+         above lib (rev (cs_stack c')) = rest) /\
+      (rn (cu_blk cu) < j_stop c -> (exists bS, In bS canon /\ bnum bS = j_stop c) -> snd res = JStop ->
+         stop_reached c canon merged start' (fst res) (cs_stack c')).
   Proof.
-    destruct cur_core as (X & J & HJ & [(P & Hro & HP)|[(fend & Hfo & HP)|(EX & Ef & Hne)]]).
-    - destruct (nu_raw_out_prefix c X res P Hnu Hro) as (Xa & Xb & EX & Efil & Hnil).
-      destruct (nu_fold_prefix J0 X Xa Xb J (fst res) EX HJ Efil) as (Ja & Hc' & HJa).
-      exists (mkCons Ja 0 false). split; [exact Hc'|]. intros Hn. right. cbn [cs_stack].
-      destruct (Hnil Hn) as [-> HPp]. rewrite app_nil_r in EX. subst Xa. rewrite HJ in HJa. injection HJa as <-.
-      exact (HP HPp).
-    - destruct (nu_files_out_prefix c X fend res Hnu Hfo) as (Xa & Xb & EX & Efil & Hnil).
-      destruct (nu_fold_prefix J0 X Xa Xb J (fst res) EX HJ Efil) as (Ja & Hc' & HJa).
-      exists (mkCons Ja 0 false). split; [exact Hc'|]. intros Hn. cbn [cs_stack].
-      destruct (Hnil Hn) as [-> Hfe]. rewrite app_nil_r in EX. subst Xa. rewrite HJ in HJa. injection HJa as <-.
-      destruct (HP Hfe) as [E|Hd]; [|right; exact Hd].
-      left. subst X. destruct Hfo as [[_ Hr]|[_ Hr]]; rewrite Hr; reflexivity.
-    - exists (mkCons J0 0 false). rewrite Ef. split; [reflexivity|]. intros Hn. contradiction.
+    destruct cur_core as (X & J & HJ & Hd & Hcase).
+    (* the stop block is a block of rest, at or above the start point *)
+    assert (HbSrest : rn (cu_blk cu) < j_stop c -> forall bS, In bS canon -> bnum bS = j_stop c -> In bS rest /\ start' <= j_stop c).
+    { intros Hsc bS HbS HnS. pose proof lib_le_blk as Hlb.
+      assert (Hin : In bS rest).
+      { rewrite <- (above_of_from_num canon lib L rest Hasc Hfrom ELn). unfold above. apply filter_In. split; [exact HbS | apply N.ltb_lt; lia]. }
+      split; [exact Hin|]. unfold start'.
+      pose proof (asc_filter (fun b => lib <=? bnum b) canon Hasc) as Ha. fold (from_num lib canon) in Ha. rewrite Hfrom in Ha.
+      clear - Ha Hin HnS. destruct rest as [|r1 rest1]; [destruct Hin|]. destruct Ha as [_ [Hall _]].
+      destruct Hin as [<-|Hin]; [lia|]. rewrite Forall_forall in Hall. specialize (Hall bS Hin). lia. }
+    assert (HJ0lt : rn (cu_blk cu) < j_stop c -> forall b, In b J0 -> bnum b < j_stop c).
+    { intros Hsc b Hb. unfold J0 in Hb. apply in_rev in Hb. pose proof (held_le b Hb). lia. }
+    (* the run stopped by the chain on an event of X *)
+    assert (Hstopped : rn (cu_blk cu) < j_stop c -> (exists bS, In bS canon /\ bnum bS = j_stop c) ->
+              snd (upto_stop c X) = true -> fst res = fst (upto_stop c X) ->
+              exists J', sfold J0 (filter is_nu (fst res)) = Some J' /\ stop_reached c canon merged start' (fst res) J').
+    { intros Hsc (bS & HbS & HnS) Hs Hf. destruct (upto_stop_split c X Hs) as (X1 & e & X2 & EX & Hns & Hse & Hfu).
+      destruct (HbSrest Hsc bS HbS HnS) as [_ Hle].
+      destruct (stop_event_from U c canon start' merged_end U_id U_uniq U_up Hchain Hincl Hstartle' Hnu J0 X X1 e X2 (HJ0lt Hsc) Hd EX Hns Hse Hle)
+        as (J' & HJ' & Hsr).
+      rewrite Hf, Hfu. exists J'. split; [exact HJ' | exact Hsr]. }
+    destruct Hcase as [(Hrej & P & Hro & HP)|[(Hrej & Hfo & HP & Hinfo)|(EX & Ef & Hne & Hns')]].
+    - unfold raw_out in Hro. destruct (snd res) eqn:Er; try contradiction.
+      + destruct Hro as (Hc & Hns & Hf).
+        exists (mkCons J 0 false). split.
+        * apply cons_of_sfold_nu. rewrite Hf, (nu_delivered c X Hnu Hns), sfold_nu_filter. exact HJ.
+        * split; [intros _; right; exact (HP Hc) | intros _ _; discriminate].
+      + destruct Hro as (Hs & Hf).
+        destruct (list_eq_nil_or_cons (filter is_nu (fst res))) as [_|_].
+        all: assert (Hex : exists J', sfold J0 (filter is_nu (fst res)) = Some J').
+        all: try (destruct (upto_stop_split c X Hs) as (X1 & e & X2 & EX & Hns & Hse & Hfu);
+                  destruct (Hd X1 (e :: X2) EX) as (Ja & HJa & _);
+                  destruct (Hd (X1 ++ [e]) X2) as (Jb & HJb & _); [rewrite EX, <- app_assoc; reflexivity|];
+                  destruct (stops_true c e Hse) as (_ & _ & _ & Hfst);
+                  rewrite Hf, Hfu, Hfst, filter_is_nu_app, (nu_delivered c X1 Hnu Hns);
+                  change (filter is_nu X1) with (filter nu_ev X1); rewrite sfold_app, sfold_filter, HJa;
+                  destruct (enum e =? j_stop c); [|eexists; reflexivity];
+                  change (filter is_nu [e]) with (filter nu_ev [e]); rewrite sfold_filter; cbn [sfold];
+                  rewrite sfold_app, HJa in HJb; cbn [sfold] in HJb; destruct (sapply Ja e); [eexists; reflexivity | discriminate]).
+        all: destruct Hex as [J' HJ']; exists (mkCons J' 0 false); (split; [apply cons_of_sfold_nu; exact HJ'|]); (split; [discriminate|]);
+             intros Hsc HbS _; destruct (Hstopped Hsc HbS Hs Hf) as (J'' & HJ'' & Hsr); rewrite HJ' in HJ''; injection HJ'' as <-; exact Hsr.
+      + destruct Hro as (X1 & X2 & EX & Hns & Hf). destruct (Hd X1 X2 EX) as (J' & HJ' & _).
+        exists (mkCons J' 0 false). split; [|split; [discriminate | intros _ _; discriminate]].
+        apply cons_of_sfold_nu. rewrite Hf, (nu_delivered c X1 Hnu Hns), sfold_nu_filter. exact HJ'.
+    - destruct Hfo as [[Hns Hr]|[Hs Hr]].
+      + exists (mkCons J 0 false). fold res in Hr. rewrite Hr. cbn [fst snd cs_stack]. split.
+        * apply cons_of_sfold_nu. rewrite (nu_delivered c X Hnu Hns), sfold_nu_filter. exact HJ.
+        * split.
+          -- intros Hfe. destruct (HP Hfe) as [E|Hdn]; [left; subst X; reflexivity | right; exact Hdn].
+          -- (* the file source reported the end of the bundle of S: impossible, block S is in the files read *)
+             intros Hsc (bS & HbS & HnS) Hfe. exfalso.
+             assert (E0 : j_stop c <> 0) by (intros E; unfold fend0 in Hfe; rewrite E in Hfe; discriminate).
+             assert (Hble : (j_stop c / j_bundle c + 1) * j_bundle c <= merged_end).
+             { unfold fend0 in Hfe. apply N.leb_le.
+               case_eq ((j_stop c / j_bundle c + 1) * j_bundle c <=? merged_end); [reflexivity|].
+               intros E. rewrite E, andb_false_r in Hfe. discriminate. }
+             assert (Estopf : stopf = j_stop c) by (unfold stopf; apply N.eqb_neq in E0; rewrite E0; reflexivity).
+             pose proof (N.mul_succ_div_gt (j_stop c) (j_bundle c)) as Hdiv. rewrite <- N.add_1_r in Hdiv.
+             assert (HSb : j_stop c < bound) by (unfold bound; rewrite Estopf; nia).
+             assert (Hbm : bound <= merged_end) by (unfold bound; rewrite Estopf; exact Hble).
+             destruct (HbSrest Hsc bS HbS HnS) as [HbSr _]. pose proof lib_le_blk as Hlb.
+             destruct Hinfo as [[_ Hnr]|(I & later & EX & Erest')].
+             ++ apply Hnr. exists bS. split; [|lia]. unfold file_delivery. apply filter_In. split.
+                ** unfold merged. apply filter_In. split; [exact HbS | apply N.ltb_lt; lia].
+                ** fold bound. apply andb_true_iff. split; [apply N.leb_le; lia | apply N.ltb_lt; lia].
+             ++ assert (Hin : In bS (hc ++ later)).
+                { rewrite <- Erest'. apply filter_In. split; [exact HbSr | apply N.ltb_lt; unfold mend; lia]. }
+                apply in_app_or in Hin as [Hin|Hin].
+                ** pose proof (held_le bS (in_or_app _ _ _ (or_introl Hin))). lia.
+                ** pose proof (upto_stop_nostop c X Hns) as Hall. rewrite Forall_forall in Hall.
+                   assert (HinX : In (fev bS) X) by (rewrite EX; apply in_or_app; right; apply in_map; exact Hin).
+                   pose proof (stops_false_pass c (fev bS) (Hall _ HinX) (has_nu_pass c (fev bS) Hnu eq_refl) E0) as Hlt.
+                   unfold enum in Hlt. cbn [eblk file_event] in Hlt. lia.
+      + fold res in Hr.
+        assert (Hf : fst res = fst (upto_stop c X)) by (rewrite Hr; reflexivity).
+        assert (Hex : exists J', sfold J0 (filter is_nu (fst res)) = Some J').
+        { destruct (upto_stop_split c X Hs) as (X1 & e & X2 & EX & Hns & Hse & Hfu).
+          destruct (Hd X1 (e :: X2) EX) as (Ja & HJa & _).
+          destruct (Hd (X1 ++ [e]) X2) as (Jb & HJb & _); [rewrite EX, <- app_assoc; reflexivity|].
+          destruct (stops_true c e Hse) as (_ & _ & _ & Hfst).
+          rewrite Hf, Hfu, Hfst, filter_is_nu_app, (nu_delivered c X1 Hnu Hns).
+          change (filter is_nu X1) with (filter nu_ev X1). rewrite sfold_app, sfold_filter, HJa.
+          destruct (enum e =? j_stop c); [|eexists; reflexivity].
+          change (filter is_nu [e]) with (filter nu_ev [e]). rewrite sfold_filter. cbn [sfold].
+          rewrite sfold_app, HJa in HJb. cbn [sfold] in HJb. destruct (sapply Ja e); [eexists; reflexivity | discriminate]. }
+        destruct Hex as [J' HJ']. exists (mkCons J' 0 false). split; [apply cons_of_sfold_nu; exact HJ'|].
+        split; [rewrite Hr; discriminate|].
+        intros Hsc HbS _. destruct (Hstopped Hsc HbS Hs Hf) as (J'' & HJ'' & Hsr). rewrite HJ' in HJ''. injection HJ'' as <-. exact Hsr.
+    - exists (mkCons J0 0 false). rewrite Ef. split; [reflexivity|]. split; [intros Hn; contradiction | intros _ _ Hn; contradiction].
   Qed.
 End CurRun.
 
@@ -386,6 +585,22 @@ Proof.
   pose proof (bridge2_decl_none U Hscope) as Hdecl.
   assert (HW : WOK U c w).
   { split; [|exact Hrest]. rewrite Hhub. apply (hub_ok_run U (j_first c) (j_kept c) Hwfb Hlok l Hl). }
-  exact (cur_nu U c w ps merged_end canon forked cu L rest hc hf Hid Huniq Hup Hdecl Hchain Hincl HW Htip Hmode Hcur Hnu Hbundle Hbound
-           Hfrom HL Hstate HhfU HXU).
+  destruct (cur_nu U c w ps merged_end canon forked cu L rest hc hf Hid Huniq Hup Hdecl Hchain Hincl HW Htip Hmode Hcur Hnu Hbundle Hbound
+           Hfrom HL Hstate HhfU HXU) as (c' & H1 & H2 & _).
+  exists c'. split; [exact H1 | exact H2].
+Qed.
+
+(* the stop clause at stream level (Spec/C13_More_Spec.v) *)
+Lemma c13_stop_cursor_holds_proof : C13_stop_cursor_holds.
+Proof.
+  intros U c w ps merged_end canon forked cu L rest hc hf Hwfb Hlok [[l [Hl Hhub]] Hrest] Hchain Hincl merged Htip
+         Hmode Hcur Hnu Hbundle Hbound Hfrom HL Hstate HhfU HXU Hsc HbS res start.
+  assert (Hscope : disc_scope2_b U = true) by (unfold disc_scope2_b; rewrite Hwfb, Hlok; reflexivity).
+  pose proof (bridge_id U Hwfb) as Hid. pose proof (bridge_uniq U Hwfb) as Huniq. pose proof (bridge_up U Hwfb) as Hup.
+  pose proof (bridge2_decl_none U Hscope) as Hdecl.
+  assert (HW : WOK U c w).
+  { split; [|exact Hrest]. rewrite Hhub. apply (hub_ok_run U (j_first c) (j_kept c) Hwfb Hlok l Hl). }
+  destruct (cur_nu U c w ps merged_end canon forked cu L rest hc hf Hid Huniq Hup Hdecl Hchain Hincl HW Htip Hmode Hcur Hnu Hbundle Hbound
+           Hfrom HL Hstate HhfU HXU) as (c' & H1 & _ & H3).
+  exists c'. split; [exact H1 | exact (H3 Hsc HbS)].
 Qed.
